@@ -108,7 +108,13 @@ func runHistories(c *vrun.Ctx) error {
 					firstErr.CompareAndSwap(nil, fmt.Errorf("state of network %s before its initial state", j.st["net"].Str()))
 					continue
 				}
-				if err := replayHistoryState(c, n, j.st, realEvery, stats); err != nil {
+				st := j.st
+				var err error
+				if hp := guard(c, "history-replay", func() any { return map[string]any{"net": n.name, "chain": st["chain"].Go()} },
+					func() { err = replayHistoryState(c, n, st, realEvery, stats) }); hp != nil {
+					err = hp
+				}
+				if err != nil {
 					firstErr.CompareAndSwap(nil, err)
 				}
 			}
@@ -160,7 +166,7 @@ func runHistories(c *vrun.Ctx) error {
 		return fmt.Errorf("Pow.tla: dump has %d states, TLC reported %d", nStates, res.Distinct)
 	}
 	for _, r := range []string{"accept", "target-range", "time-too-new", "bad-diffbits", "time-too-old", "timewarp",
-		"pos:interior", "pos:interior-reduce", "pos:boundary", "pos:boundary-bip94", "pos:noretarget", "mindiff-block", "walkback"} {
+		"pos:interior", "pos:interior-reduce", "pos:boundary", "pos:boundary-bip94", "pos:noretarget", "mindiff-block", "walkback", "walkback-stops-at-first-block-at-limit"} {
 		if _, ok := stats.ruleSeen.Load(r); !ok {
 			return fmt.Errorf("Pow.tla replay is vacuous for %q: no state exercised it", r)
 		}
@@ -281,6 +287,17 @@ func replayHistoryState(c *vrun.Ctx, n *netCtx, st tla.State, realEvery uint32, 
 			}
 			if pos == "interior-reduce" && tip.bits == n.params.PowLimitBits && b != n.params.PowLimitBits {
 				stats.ruleSeen.Store("walkback", true)
+			}
+			// the limit as a genuine retarget result: a later block of that period,
+			// not eligible for the minimum-difficulty exception, must get the
+			// limit from the period's first block although the previous period
+			// ended below the limit
+			if N := n.chain.BlocksPerRetarget(); pos == "interior-reduce" && newHeight >= N {
+				first := int(newHeight - newHeight%N)
+				if bitsv[first] == n.params.PowLimitBits && bitsv[first-1] != n.params.PowLimitBits &&
+					b == n.params.PowLimitBits && t <= tip.ts+int64(n.params.MinDiffReductionTime/time.Second) {
+					stats.ruleSeen.Store("walkback-stops-at-first-block-at-limit", true)
+				}
 			}
 		}
 		for _, r := range viol {
